@@ -28,7 +28,7 @@ structure Linked (g g2 : Cfg) : Prop where
   b : g2.b = g.b
   mc : g2.mc = g.mc
   hs0 : g2.hs0 = g.hs0 + 1
-  more : g.more = (script g2.data g2.st, true) :: g2.more
+  more : g.more = (g2.hscript, true) :: g2.more
   keep : g.p.flags.toNat % 2 = 1
 
 def ChainFrom : Cfg → List Cfg → Prop
@@ -38,8 +38,15 @@ def ChainFrom : Cfg → List Cfg → Prop
 /-- `g` started at write log `L` -/
 def Cfg.at (g : Cfg) (L : Bytes) : Cfg := { g with L0 := L }
 
+theorem Cfg.Shape.at {g : Cfg} (h : g.Shape) (L : Bytes) : (g.at L).Shape := by
+  cases h with
+  | responder hr hb hf hp hX2 hX hU hOt hrv hs hfu => exact .responder hr hb hf hp hX2 hX hU hOt hrv hs hfu
+  | authorizer hr hX hU hOt hrv hs hfu => exact .authorizer hr hX hU hOt hrv hs hfu
+  | filter hr hb hb2 hf hf2 hp hp2 hX2 hX hU hOt hrv hs hfu =>
+    exact .filter hr hb hb2 hf hf2 hp hp2 hX2 hX hU hOt hrv hs hfu
+
 theorem Cfg.OK.at {g : Cfg} (ok : g.OK) (L : Bytes) : (g.at L).OK :=
-  ⟨ok.wf, ok.role, ok.pairs, ok.noise, ok.body, ok.sfits, ok.padlen, ok.hfuel⟩
+  ⟨ok.wf, ok.pairs, ok.noise, ok.shape.at L⟩
 
 /-- the write log after the requests `gs` were served one after the other, starting from `L` -/
 def LogChain : Bytes → List Cfg → Bytes → Prop
@@ -102,7 +109,7 @@ theorem chain_run : ∀ (gs : List Cfg) (g : Cfg) (c : Conn) (n fuel : Nat),
     ∃ c' fin, closedLoop fuel (gs.map Cfg.W) c n = (c', fin) ∧
       (∀ s, s ∈ c.env.tr.events → s ∈ c'.env.tr.events) ∧ c'.env.tr.endMode = .pend ∧
       LogChain g.L0 (g :: gs) c'.env.tr.wlog ∧ ChainEnd (lastP g gs) c' fin ∧
-      (∀ g' ∈ g :: gs, hsEvent g'.p.request ∈ c'.env.tr.events ∧ rEvent g'.content ∈ c'.env.tr.events) := by
+      (∀ g' ∈ g :: gs, hsEvent g'.p.request ∈ c'.env.tr.events ∧ ∀ s ∈ g'.revs, s ∈ c'.env.tr.events) := by
   intro gs
   induction gs with
   | nil =>
@@ -151,7 +158,7 @@ theorem chain_run : ∀ (gs : List Cfg) (g : Cfg) (c : Conn) (n fuel : Nat),
         exact hend2.at
       · intro g' hg'
         rcases List.mem_cons.1 hg' with rfl | hg'
-        · exact ⟨hevm2 _ hpk.ev.2, hevm2 _ hpk.re⟩
+        · exact ⟨hevm2 _ hpk.ev.2, fun s hs => hevm2 _ (hpk.re s hs)⟩
         · rcases List.mem_cons.1 hg' with rfl | hg''
           · exact hall2 (g'.at (g.L3 O1 O2)) List.mem_cons_self
           · exact hall2 g' (List.mem_cons_of_mem _ hg'')
